@@ -90,6 +90,19 @@ def join_congruence(hyps, goal):
             j = z3.Int('jc!%d_%d' % (a, b))
             same = z3.ForAll([j], z3.Implies(z3.And(0 <= j, j < na), z3.Select(ea, j) == z3.Select(eb, j)))
             out.append(z3.Implies(z3.And(sa == sb, na == nb, same), x == y))
+    # T-TOK: untokenize depends only on the first n (type, string) pairs
+    acc2, seen2 = {}, set()
+    for h in list(hyps) + ([goal] if goal is not None else []):
+        _collect_apps(h, 'py_untokenize', acc2, seen2)
+    apps = list(acc2.values())
+    for a in range(len(apps)):
+        for b in range(a + 1, len(apps)):
+            x, y = apps[a], apps[b]
+            ea, na = x.children()
+            eb, nb = y.children()
+            j = z3.Int('uc!%d_%d' % (a, b))
+            same = z3.ForAll([j], z3.Implies(z3.And(0 <= j, j < na), z3.Select(ea, j) == z3.Select(eb, j)))
+            out.append(z3.Implies(z3.And(na == nb, same), x == y))
     return out
 
 
